@@ -371,6 +371,20 @@ static int opt_work (
 															DUAL_SIMPLEX, &rstatus, p->simplex_display, 
 															&(p->itcnt));
 		}
+		if (rval == 0 && rstatus == QS_LP_INFEASIBLE &&
+				p->lp->final_phase != PRIMAL_PHASEI &&
+				p->lp->final_phase != DUAL_PHASEII)
+		{
+			/* the dual simplex stopped in its phase I: it has only shown that the
+			 * dual is infeasible, so the LP may be unbounded instead of infeasible;
+			 * let the primal simplex decide from the current basis */
+			EGLPNUM_TYPENAME_ILLprice_free_pricing_info (p->pricing);
+			if (p->lp->basisid != -1)
+				p->lp->fbasisid = p->lp->basisid;
+			rval = EGLPNUM_TYPENAME_ILLlib_optimize (p->lp, 0, p->pricing,
+															PRIMAL_SIMPLEX, &rstatus, p->simplex_display,
+															&(p->itcnt));
+		}
 	}
 	CHECKRVALG (rval, CLEANUP);
 
